@@ -100,6 +100,73 @@ pub proof fn lemma_bdiff_pointwise(a: BoundSet, b: BoundSet, r: Option<Vec<Bound
     }
 }
 
+// ===================== prerelease clauses of C07: which versions satisfy an intersection =====================
+/// v lies within both intervals and at least one of them opts it in (for a release: within both)
+pub open spec fn pair_sat(a: BoundSet, b: BoundSet, v: VKey) -> bool { within(a, v) && within(b, v) && (gate(a, v) || gate(b, v)) }
+pub open spec fn all_pairs_sat(s: Seq<BoundSet>, t: Seq<BoundSet>, v: VKey) -> bool {
+    exists|i: int, j: int| 0 <= i < s.len() && 0 <= j < t.len() && pair_sat(#[trigger] s[i], #[trigger] t[j], v)
+}
+/// pairs (i, j) visited so far by the nested loops: all of rows < n, and columns < k of row n
+pub open spec fn any_pair_sat(s: Seq<BoundSet>, n: int, t: Seq<BoundSet>, k: int, v: VKey) -> bool {
+    exists|i: int, j: int| 0 <= i <= n && i < s.len() && 0 <= j < t.len() && (i < n || j < k) && pair_sat(#[trigger] s[i], #[trigger] t[j], v)
+}
+pub proof fn lemma_any_pair_sat_zero(s: Seq<BoundSet>, t: Seq<BoundSet>, v: VKey) ensures !any_pair_sat(s, 0, t, 0, v) {}
+pub proof fn lemma_any_pair_sat_step(s: Seq<BoundSet>, n: int, t: Seq<BoundSet>, k: int, v: VKey)
+    requires 0 <= n < s.len(), 0 <= k < t.len()
+    ensures any_pair_sat(s, n, t, k + 1, v) == (any_pair_sat(s, n, t, k, v) || pair_sat(s[n], t[k], v))
+{
+    if any_pair_sat(s, n, t, k + 1, v) {
+        let (i, j) = choose|i: int, j: int| 0 <= i <= n && i < s.len() && 0 <= j < t.len() && (i < n || j < k + 1) && pair_sat(#[trigger] s[i], #[trigger] t[j], v);
+        if i < n || j < k { assert(any_pair_sat(s, n, t, k, v)); } else { assert(i == n && j == k); }
+    }
+    if any_pair_sat(s, n, t, k, v) {
+        let (i, j) = choose|i: int, j: int| 0 <= i <= n && i < s.len() && 0 <= j < t.len() && (i < n || j < k) && pair_sat(#[trigger] s[i], #[trigger] t[j], v);
+        assert(0 <= i <= n && (i < n || j < k + 1) && pair_sat(s[i], t[j], v));
+    }
+    if pair_sat(s[n], t[k], v) { assert(0 <= n <= n && (n < n || k < k + 1) && pair_sat(s[n], t[k], v)); }
+}
+/// a finished row: (n, all columns) is (n + 1, no column)
+pub proof fn lemma_any_pair_sat_row(s: Seq<BoundSet>, n: int, t: Seq<BoundSet>, v: VKey)
+    requires 0 <= n < s.len()
+    ensures any_pair_sat(s, n, t, t.len() as int, v) == any_pair_sat(s, n + 1, t, 0, v)
+{
+    if any_pair_sat(s, n, t, t.len() as int, v) {
+        let (i, j) = choose|i: int, j: int| 0 <= i <= n && i < s.len() && 0 <= j < t.len() && (i < n || j < t.len()) && pair_sat(#[trigger] s[i], #[trigger] t[j], v);
+        assert(0 <= i <= n + 1 && (i < n + 1 || j < 0) && pair_sat(s[i], t[j], v));
+    }
+    if any_pair_sat(s, n + 1, t, 0, v) {
+        let (i, j) = choose|i: int, j: int| 0 <= i <= n + 1 && i < s.len() && 0 <= j < t.len() && (i < n + 1 || j < 0) && pair_sat(#[trigger] s[i], #[trigger] t[j], v);
+        assert(0 <= i <= n && (i < n || j < t.len()) && pair_sat(s[i], t[j], v));
+    }
+}
+pub proof fn lemma_any_pair_sat_all(s: Seq<BoundSet>, t: Seq<BoundSet>, v: VKey)
+    ensures any_pair_sat(s, s.len() as int, t, 0, v) == all_pairs_sat(s, t, v)
+{
+    if any_pair_sat(s, s.len() as int, t, 0, v) {
+        let (i, j) = choose|i: int, j: int| 0 <= i <= s.len() && i < s.len() && 0 <= j < t.len() && (i < s.len() || j < 0) && pair_sat(#[trigger] s[i], #[trigger] t[j], v);
+        assert(pair_sat(s[i], t[j], v));
+    }
+    if all_pairs_sat(s, t, v) {
+        let (i, j) = choose|i: int, j: int| 0 <= i < s.len() && 0 <= j < t.len() && pair_sat(#[trigger] s[i], #[trigger] t[j], v);
+        assert(0 <= i <= s.len() && (i < s.len() || j < 0) && pair_sat(s[i], t[j], v));
+    }
+}
+pub proof fn lemma_any_sat_push(s: Seq<BoundSet>, b: BoundSet, k: VKey)
+    ensures any_sat(s.push(b), s.len() as int + 1, k) == (any_sat(s, s.len() as int, k) || sat(b, k))
+{
+    let t = s.push(b);
+    if any_sat(t, t.len() as int, k) {
+        let i = choose|i: int| 0 <= i < t.len() && i < t.len() && sat(#[trigger] t[i], k);
+        if i < s.len() { assert(t[i] == s[i]); assert(any_sat(s, s.len() as int, k)); } else { assert(t[i] == b); }
+    }
+    if any_sat(s, s.len() as int, k) { let i = choose|i: int| 0 <= i < s.len() && i < s.len() && sat(#[trigger] s[i], k); assert(t[i] == s[i]); }
+    if sat(b, k) { assert(t[s.len() as int] == b); }
+}
+/// nothing remains of `a` after removing `b` (cut form)
+pub open spec fn bdiff_none(a: BoundSet, b: BoundSet) -> bool {
+    boverlap(a, b) && cut_cmp(cut_of(*a.lower), cut_of(*b.lower)) != Ordering::Less && cut_cmp(cut_of(*b.upper), cut_of(*a.upper)) != Ordering::Less
+}
+
 // ===================== relations = the postconditions of the Range operations (taken from the property statements) =====================
 pub open spec fn roverlap(a: Range, b: Range) -> bool {
     exists|i: int, j: int| 0 <= i < a.0@.len() && 0 <= j < b.0@.len() && boverlap(#[trigger] a.0@[i], #[trigger] b.0@[j])
@@ -112,9 +179,13 @@ pub open spec fn rinter_post(a: Range, b: Range, r: Option<Range>) -> bool {
     &&& (r is Some) <==> roverlap(a, b)
     &&& r matches Some(x) ==> rwf(x) && x.0@.len() > 0 && forall|v: VKey| #![trigger rwithin(x, v)] rwithin(x, v) <==> rwithin(a, v) && rwithin(b, v)
     &&& r is None ==> forall|v: VKey| #![trigger rwithin(a, v), rwithin(b, v)] !(rwithin(a, v) && rwithin(b, v))
+    // prerelease clauses: the result is satisfied by v exactly when v lies within an alternative of each side and one of the two opts it in
+    &&& r matches Some(x) ==> forall|v: VKey| #![trigger rsat(x, v)] rsat(x, v) <==> any_pair_sat(a.0@, a.0@.len() as int, b.0@, 0, v)
 }
 /// C08: the result is exactly the pointwise difference; `None` only when nothing of `a` remains
 pub open spec fn rdiff_post(a: Range, b: Range, r: Option<Range>) -> bool {
     &&& r matches Some(x) ==> rwf(x) && x.0@.len() > 0 && forall|v: VKey| #![trigger rwithin(x, v)] rwithin(x, v) <==> rwithin(a, v) && !rwithin(b, v)
     &&& r is None ==> forall|v: VKey| #![trigger rwithin(a, v)] rwithin(a, v) ==> rwithin(b, v)
+    // single alternatives on both sides: `None` exactly when the cuts say nothing remains (C10 link)
+    &&& a.0@.len() == 1 && b.0@.len() == 1 ==> ((r is None) <==> bdiff_none(a.0@[0], b.0@[0]))
 }
